@@ -42,11 +42,17 @@ PROPS = {
         "rule": "run = seeded Boolean circuit (and/or/add/sat_add/sub/gt/geq) over 1..40 records x vector width {1,16,32,256} x bit width 1..120 in DZKP-malicious mode, batched "
                 "(validated_seq_join, 1..16 multiplications per gate, several proof batches incl. a partial last one) or single-proof; first executed honestly (must validate and be correct), "
                 "then re-executed with the same seed while one helper rewrites one chunk it sends, the site drawn from the honest run's channel inventory stratified by step "
-                "(multiplication messages of every bit step, proof shares, challenges, p*q and diff messages); non-trivial iff the rewritten chunk was delivered; distinct by (shape, site, schedule digest)",
+                "(multiplication messages of every bit step, proof shares, challenges, p*q and diff messages); non-trivial iff the rewritten chunk was delivered; distinct by (shape, site, schedule digest). "
+                "c03_push: run = a crafted consistent batch pushed through DZKPUpgradedMaliciousContext::push on the three helpers - segment width {1,2,3,5,8,13,20,32,64,100,128,256,512,768} x records (exactly filling, "
+                "one more/less than, or ragged against 1..40 storage blocks) x 1..3 gates x single validate / validate_record batches of 1..256 x value pattern {random, one of the 512 joint assignments everywhere, "
+                "per-record stripes, all ones, all zeros}; must be accepted by all; in 2/3 of the runs the same batch is re-run with ONE recorded bit (entry x record x position, biased to block boundaries) flipped on one helper "
+                "and must be rejected by at least one helper",
         "scenarios": [
             {"name": "c03_tamper", "quick": 3000, "thorough": 150000, "offset": 1, "chunk": 40, "run_timeout": 120, "crash_ok": True},
+            {"name": "c03_push", "quick": 3000, "thorough": 200000, "offset": 2, "chunk": 100, "run_timeout": 120},
         ],
-        "expected_probes": ["tamper_rejected_or_aborted", "site_bit", "site_generate_proof", "site_challenge", "site_diff", "site_p_times_q"],
+        "expected_probes": ["tamper_rejected_or_aborted", "site_bit", "site_generate_proof", "site_challenge", "site_diff", "site_p_times_q",
+                            "honest_batch_accepted", "flip_rejected", "flip_entry_0", "flip_entry_6", "flip_in_later_batch", "width_3", "width_512"],
         "components_real": ["protocol::context::{dzkp_validator, dzkp_malicious, dzkp_field, batcher}, ipa_prf::{malicious_security, validation_protocol}, basics::mul::dzkp_malicious, boolean_ops, Gateway, in-memory transport"],
     },
     "C06": {
@@ -285,9 +291,9 @@ MANIFEST_TEXT = {
         "technique": "deterministic simulation: honest run + same-seed replay with single-site additive/bit error, channel inventory stratified by protocol step",
     },
     "C03": {
-        "text": "Fault enumeration over the real DZKP validators: every run first executes a seeded Boolean circuit honestly in malicious mode (all three helpers must validate; results must be correct - the 'honest batches are accepted' half), then replays the same seed with one helper rewriting one chunk at a site drawn from the honest run's channel inventory, stratified by step so that multiplication messages of every bit step and every proof message kind are hit. Violation iff both honest helpers validate and (a) the site was a multiplication message, or (b) their shares no longer open to the right result. Sites are sampled, not all enumerated, in the quick tier.",
+        "text": "Fault enumeration over the real DZKP validators: every run first executes a seeded Boolean circuit honestly in malicious mode (all three helpers must validate; results must be correct - the 'honest batches are accepted' half), then replays the same seed with one helper rewriting one chunk at a site drawn from the honest run's channel inventory, stratified by step so that multiplication messages of every bit step and every proof message kind are hit. Violation iff both honest helpers validate and (a) the site was a multiplication message, or (b) their shares no longer open to the right result. Sites are sampled, not all enumerated, in the quick tier. A second scenario pushes crafted, mutually consistent intermediates of every value pattern straight into the proof store (all must be accepted) and re-runs the batch with a single recorded bit flipped on one helper (fault F2; at least one helper must reject).",
         "design_ref": "DESIGN.md section 4, C03",
-        "note": "soundness error of the proof system (~2^-50 over Fp61) is assumed negligible; recorded-state corruption is exercised only through what a deviating sender transmits (F1), not by mutating stored blocks",
+        "note": "soundness error of the proof system (~2^-50 over Fp61) is assumed negligible",
         "technique": "deterministic simulation: honest run + same-seed replay with single-site Byzantine rewriting, channel inventory stratified by protocol step",
     },
     "C07": {
